@@ -51,6 +51,7 @@ def run(ck):
     ck.rule("C10.R14", "`the collector` whose visitor sees the fields is the emitting thread's current one: get_default's path choice and the writers of the per-thread default (as C02.R2/R3)", floor=6)
     ck.rule("C10.R15", "a registered callsite stays reachable for every later re-evaluation: the lock-free list's push links to the head it observed, on every retry (as C04.R3)", floor=5)
     ck.rule("C10.R16", "the value set a macro built reaches the collector's visitor through Dispatch unchanged: new_span / record / event forward 1:1 (as C09.R4)", floor=3)
+    ck.rule("C10.R21", "the last filtering stage asks the collector get_default names (also on a thread that is exiting): the macros' support code never uses get_current (as C02.R12)", floor=3)
     ck.rule("C10.R20", "visitor adaptors are transparent to the type of a value: every Visit wrapper overrides each provided record_* method and forwards it to the "
             "same method of the visitor it wraps (as C09.R1/R2)", floor=20)
     ck.rule("C10.R19", "a field key denotes one position of one callsite: keys are equal only with equal callsite *and* index, the set's iterator hands out "
@@ -107,6 +108,8 @@ def run(ck):
     _C01b.r6(ck, F, rid="C10.R17")
     as_field_rule(ck, F)
     field_key_rule(ck, F)
+    from rules import C02 as _C02l
+    _C02l.lookup_entry_points(ck, rid="C10.R21", crates={"tracing"})
     # a visitor adaptor (Alt, Messages, VisitDelimited, ...) must hand every typed visit on to the visitor it wraps: a
     # record_* it does not override falls back to its *own* record_debug and the wrapped visitor never sees the type
     from rules import C09 as _C09v
